@@ -622,6 +622,10 @@ func (e *Exec) callByContract(st *State, c *FuncContract, callee *ssa.Function, 
 		x.where = fmt.Sprintf("%s:%d", cl.File, cl.Line)
 		t, err := x.evalBool(cl.Expr)
 		if err != nil {
+			if _, isAtomic := c.Flags["atomic"]; isAtomic && strings.Contains(err.Error(), "unknown identifier") {
+				// clause about the callee's own ghost record (CAS/Add bookkeeping): not visible to callers
+				continue
+			}
 			e.note("CONTRACT-ERROR contract %s: %v", name, err)
 			continue
 		}
